@@ -8,7 +8,7 @@ if ! git -C /repo diff --quiet; then echo "refusing: /repo has uncommitted chang
 git -C /repo apply "$PATCH" || { echo "patch does not apply"; exit 2; }
 for P in "$@"; do
   echo "=== $P on $(basename "$(dirname "$PATCH")")/$(basename "$PATCH")"
-  bin/check "$P" quick --no-evidence 2>&1 | grep -E "VIOLATION|class=|HARNESS|violations=" | cut -c1-400 | head -12
+  bin/check "$P" quick --no-evidence 2>&1 | grep -a -E "VIOLATION|class=|HARNESS|violations=" | cut -c1-400 | head -12
 done
 git -C /repo checkout -- .
 rm -f /verif/replay/*.json
